@@ -70,7 +70,10 @@ pub fn all_api_ops() -> Vec<ApiOp> {
 }
 
 pub fn apply_api(sp: &Space<usize>, op: ApiOp, h: &[Rc<BDD<usize>>]) -> Rc<BDD<usize>> {
-    let e = &sp.env;
+    apply_env(&sp.env, op, h)
+}
+
+pub fn apply_env<S: rsbdd::BDDSymbol>(e: &Rc<rsbdd::bdd::BDDEnv<S>>, op: ApiOp, h: &[Rc<BDD<S>>]) -> Rc<BDD<S>> {
     match op {
         ApiOp::Not => e.not(h[0].clone()),
         ApiOp::Bin(Bin::And) => e.and(h[0].clone(), h[1].clone()),
@@ -142,6 +145,254 @@ pub fn check_api(ctx: &mut Ctx, sp: &Space<usize>, how: &str, op: ApiOp, tts: &[
             }
             ctx.count("distinct_by_construction", 1);
             ctx.sample(|| json!({"op": op.name(), "operands": tts.iter().map(|t| format!("{t:#x}")).collect::<Vec<_>>(), "result": robdd::show(&res)}));
+        }
+    }
+}
+
+// ---------------------------------------------------------------------------------------
+// BDDEnv<NamedSymbol> with ids that differ only above bit 32 (and names that differ): the
+// API lets a caller choose any usize id. Everything here compares symbols by (id, name)
+// explicitly instead of through the subject's Eq / Ord.
+
+fn nw_syms() -> Vec<NamedSymbol> {
+    #[cfg(target_pointer_width = "64")]
+    let ids = [1usize, (1 << 32) + 1, (1 << 40) + 1];
+    #[cfg(not(target_pointer_width = "64"))]
+    let ids = [1usize, (1 << 16) + 1, (1 << 24) + 1];
+    ["p", "q", "r"].iter().zip(ids).map(|(n, i)| sym(n, i)).collect()
+}
+
+fn nw_same(a: &BDD<NamedSymbol>, b: &BDD<NamedSymbol>) -> bool {
+    match (a, b) {
+        (BDD::True, BDD::True) | (BDD::False, BDD::False) => true,
+        (BDD::Choice(t1, v1, f1), BDD::Choice(t2, v2, f2)) => v1.id == v2.id && v1.name == v2.name && nw_same(t1, t2) && nw_same(f1, f2),
+        _ => false,
+    }
+}
+
+fn nw_canon(tt: u64, syms: &[NamedSymbol], level: usize, fixed: usize) -> Rc<BDD<NamedSymbol>> {
+    if level == syms.len() {
+        return Rc::new(if (tt >> fixed) & 1 == 1 { BDD::True } else { BDD::False });
+    }
+    let t = nw_canon(tt, syms, level + 1, fixed | (1 << level));
+    let e = nw_canon(tt, syms, level + 1, fixed);
+    if nw_same(&t, &e) {
+        t
+    } else {
+        Rc::new(BDD::Choice(t, syms[level].clone(), e))
+    }
+}
+
+fn nw_tt(b: &BDD<NamedSymbol>, syms: &[NamedSymbol]) -> Result<u64, String> {
+    let mut r = 0u64;
+    for a in 0..(1usize << syms.len()) {
+        let mut n = b;
+        loop {
+            match n {
+                BDD::True => {
+                    r |= 1 << a;
+                    break;
+                }
+                BDD::False => break,
+                BDD::Choice(t, v, f) => {
+                    let i = syms.iter().position(|s| s.id == v.id && s.name == v.name).ok_or_else(|| format!("diagram mentions unknown variable {}#{}", v.name, v.id))?;
+                    n = if (a >> i) & 1 == 1 { t.as_ref() } else { f.as_ref() };
+                }
+            }
+        }
+    }
+    Ok(r)
+}
+
+fn nw_show(b: &BDD<NamedSymbol>) -> String {
+    match b {
+        BDD::True => "T".into(),
+        BDD::False => "F".into(),
+        BDD::Choice(t, v, f) => format!("({}#{:#x} ? {} : {})", v.name, v.id, nw_show(t), nw_show(f)),
+    }
+}
+
+fn nw_intern(env: &Rc<rsbdd::bdd::BDDEnv<NamedSymbol>>, b: &BDD<NamedSymbol>) -> Rc<BDD<NamedSymbol>> {
+    match b {
+        BDD::True => env.mk_const(true),
+        BDD::False => env.mk_const(false),
+        BDD::Choice(t, v, f) => {
+            let t = nw_intern(env, t);
+            let f = nw_intern(env, f);
+            env.mk_choice(t, v.clone(), f)
+        }
+    }
+}
+
+fn nw_check(ctx: &mut Ctx, env: &Rc<rsbdd::bdd::BDDEnv<NamedSymbol>>, syms: &[NamedSymbol], op: ApiOp, tts: &[u64], oracle: Oracle, prop_tag: &str) {
+    let case = json!({"part": "named-wide", "op": op.name(), "operands": tts});
+    ctx.begin_case(|| case.clone());
+    ctx.count("transitions", 1);
+    ctx.count("named_wide_ids", 1);
+    ctx.count("distinct_by_construction", 1);
+    let full = (1u64 << (1 << syms.len())) - 1;
+    let key = format!("{prop_tag} api NamedSymbol ids {:?}: {}({})", syms.iter().map(|s| format!("{:#x}", s.id)).collect::<Vec<_>>(), op.name(), tts.iter().map(|t| format!("{t:#x}")).collect::<Vec<_>>().join(", "));
+    let r = guarded(|| {
+        let hs: Vec<Rc<BDD<NamedSymbol>>> = tts.iter().map(|t| nw_intern(env, &nw_canon(*t, syms, 0, 0))).collect();
+        for (h, t) in hs.iter().zip(tts) {
+            if !nw_same(h, &nw_canon(*t, syms, 0, 0)) {
+                return Err(format!("mk_choice did not build operand {t:#x}: got {}", nw_show(h)));
+            }
+        }
+        Ok(apply_env(env, op, &hs))
+    });
+    let want = op.expect(tts, full);
+    match r {
+        Err(p) => ctx.violation(key, format!("operation panicked: {p}"), case),
+        Ok(Err(e)) => ctx.violation(key, e, case),
+        Ok(Ok(res)) => {
+            let mut complaints = vec![];
+            if oracle.semantic {
+                match nw_tt(&res, syms) {
+                    Err(e) => complaints.push(e),
+                    Ok(t) if t != want => complaints.push(format!("result denotes {t:#x}, the pointwise definition gives {want:#x} (result {})", nw_show(&res))),
+                    Ok(_) => {}
+                }
+            }
+            if oracle.canonical {
+                let c = nw_canon(want, syms, 0, 0);
+                if !nw_same(&res, &c) {
+                    complaints.push(format!("result is not the reduced ordered diagram of its function: got {}, canonical {}", nw_show(&res), nw_show(&c)));
+                }
+            }
+            if !complaints.is_empty() {
+                ctx.violation(key, complaints.join("; "), case);
+            }
+        }
+    }
+}
+
+/// every unary / binary connective on every operand tuple of F_3 (ite with a constant or
+/// variable condition) in a BDDEnv<NamedSymbol> whose ids agree in their low 32 bits
+pub fn sweep_named_wide(ctx: &mut Ctx, oracle: Oracle, prop_tag: &str) {
+    let syms = nw_syms();
+    let env = Rc::new(rsbdd::bdd::BDDEnv::<NamedSymbol>::new());
+    let conds: Vec<u64> = vec![0, 0xff, 0xaa, 0xcc, 0xf0];
+    for f in 0..256u64 {
+        if !ctx.mine(f) {
+            continue;
+        }
+        nw_check(ctx, &env, &syms, ApiOp::Not, &[f], oracle, prop_tag);
+        for g in 0..256u64 {
+            for b in ALL_BINS {
+                nw_check(ctx, &env, &syms, ApiOp::Bin(b), &[f, g], oracle, prop_tag);
+            }
+            for &c in &conds {
+                nw_check(ctx, &env, &syms, ApiOp::Ite, &[c, f, g], oracle, prop_tag);
+            }
+        }
+    }
+}
+
+pub fn replay_named_wide(ctx: &mut Ctx, case: &Value, oracle: Oracle, prop_tag: &str) {
+    let Some(op) = case["op"].as_str().and_then(ApiOp::parse) else { return };
+    let tts: Vec<u64> = case["operands"].as_array().map(|a| a.iter().filter_map(|v| v.as_u64()).collect()).unwrap_or_default();
+    if tts.len() != op.arity() {
+        return;
+    }
+    let syms = nw_syms();
+    let env = Rc::new(rsbdd::bdd::BDDEnv::<NamedSymbol>::new());
+    nw_check(ctx, &env, &syms, op, &tts, oracle, prop_tag);
+}
+
+/// Complete pair sweep over F_4 (2^16 x 2^16 operand pairs per connective) with a lean inner
+/// loop: the truth table of every result is read by walking the 16 assignments, and (C02) the
+/// result is compared with the independently built canonical diagram of its function (pointer
+/// first, structure otherwise). Any disagreement — and any panic in a row — is re-judged case by
+/// case through `check_api`, which produces the violation record. Operands are compared with a
+/// deep copy taken before the row.
+pub fn pairs4_sweep(ctx: &mut Ctx, oracle: Oracle, prop_tag: &str, ops: &[Bin], counter: &str) {
+    let syms = [0usize, 3, 4, 9];
+    let sp = match Space::<usize>::by_interning(&syms) {
+        Ok(s) => s,
+        Err(e) => {
+            ctx.violation(format!("{prop_tag} api syms={syms:?}: building operands"), e, json!({"part": "api", "syms": syms, "space": "interned", "op": "not", "operands": [0]}));
+            return;
+        }
+    };
+    let canon: Vec<Rc<BDD<usize>>> = (0..65536u64).map(|t| sp.canon(t)).collect();
+    let hs: Vec<Rc<BDD<usize>>> = (0..65536u64).map(|t| sp.get(t)).collect();
+    // position of each symbol, for the table walker
+    let walk = |b: &BDD<usize>| -> u64 {
+        let mut r = 0u64;
+        for a in 0..16usize {
+            let mut n = b;
+            loop {
+                match n {
+                    BDD::True => {
+                        r |= 1 << a;
+                        break;
+                    }
+                    BDD::False => break,
+                    BDD::Choice(t, v, f) => {
+                        let i = match *v {
+                            0 => 0,
+                            3 => 1,
+                            4 => 2,
+                            9 => 3,
+                            _ => return u64::MAX,
+                        };
+                        n = if (a >> i) & 1 == 1 { t.as_ref() } else { f.as_ref() };
+                    }
+                }
+            }
+        }
+        r
+    };
+    for f in 0..65536u64 {
+        if !ctx.mine(f) {
+            continue;
+        }
+        let snap = robdd::deep_copy(&hs[f as usize]);
+        for &b in ops {
+            let op = ApiOp::Bin(b);
+            let row = guarded(|| {
+                let mut bad: Vec<u64> = vec![];
+                for g in 0..65536u64 {
+                    let res = apply_api(&sp, op, &[hs[f as usize].clone(), hs[g as usize].clone()]);
+                    let want = bin_tt(b, f, g, sp.full);
+                    let mut ok = true;
+                    if oracle.semantic && walk(&res) != want {
+                        ok = false;
+                    }
+                    if oracle.canonical {
+                        let c = &canon[want as usize];
+                        if **c != *res {
+                            ok = false;
+                        }
+                        if (want == sp.full) != res.is_true() || (want == 0) != res.is_false() {
+                            ok = false;
+                        }
+                    }
+                    if !ok {
+                        bad.push(g);
+                    }
+                }
+                bad
+            });
+            match row {
+                Ok(bad) => {
+                    ctx.count(counter, 65536);
+                    ctx.count("distinct_by_construction", 65536);
+                    for g in bad.into_iter().take(50) {
+                        check_api(ctx, &sp, "interned", op, &[f, g], oracle, prop_tag);
+                    }
+                }
+                Err(_) => {
+                    // a panic somewhere in the row: find it case by case
+                    for g in 0..65536u64 {
+                        check_api(ctx, &sp, "interned", op, &[f, g], oracle, prop_tag);
+                    }
+                }
+            }
+        }
+        if *hs[f as usize] != *snap || *hs[f as usize] != *canon[f as usize] {
+            ctx.violation(format!("{prop_tag} api syms={syms:?}: operand {f:#x} after a complete row"), "the operand diagram was modified by the operations of its row".to_string(), json!({"part": "api", "syms": syms, "space": "interned", "op": "not", "operands": [f]}));
         }
     }
 }
